@@ -16,10 +16,10 @@ Shapes == {[n |-> n, w |-> 1, big |-> FALSE] : n \in NsByte}
           \cup {[n |-> n, w |-> 2, big |-> FALSE] : n \in NsHalf}
           \cup {[n |-> n, w |-> 4, big |-> b] : n \in NsWide, b \in BOOLEAN}
 MCConfigs ==
-    {[data |-> DataOf(s.n), w |-> s.w, big |-> s.big, haslen |-> TRUE, mlmax |-> pm, olen |-> TRUE] :
-         s \in Shapes, pm \in PortMax}
-    \cup {[data |-> DataOf(s.n), w |-> s.w, big |-> s.big, haslen |-> FALSE, mlmax |-> s.n, olen |-> FALSE] :
-              s \in Shapes}
+    {[data |-> DataOf(s.n), w |-> s.w, big |-> s.big, haslen |-> TRUE, mlmax |-> pm, olen |-> TRUE,
+      v1 |-> FALSE, latched |-> l, clean |-> FALSE] : s \in Shapes, pm \in PortMax, l \in BOOLEAN}
+    \cup {[data |-> DataOf(s.n), w |-> s.w, big |-> s.big, haslen |-> FALSE, mlmax |-> s.n, olen |-> FALSE,
+           v1 |-> (s.w = 2), latched |-> FALSE, clean |-> FALSE] : s \in Shapes}
 
 MCInit == Init0 /\ cfg \in MCConfigs
 
@@ -27,13 +27,17 @@ MCInit == Init0 /\ cfg \in MCConfigs
 Requests == {r \in [sp : 0..(NWordsTotal(cfg) - 1),
                     ml : IF cfg.haslen THEN 0..Min(NBytes(cfg) + ExtraLen, cfg.mlmax) ELSE {NBytes(cfg)}] :
                  LegalReq(cfg, r)}
-Held(rd)    == [start |-> FALSE, sp |-> req.sp, ml |-> req.ml, ready |-> rd]
-QuietInputs == {Held(rd) : rd \in BOOLEAN}
-StartInputs == {[start |-> TRUE, sp |-> r.sp, ml |-> r.ml, ready |-> rd] : r \in Requests, rd \in BOOLEAN}
+HeldIn(rd)  == [start |-> FALSE, sp |-> req.sp, ml |-> req.ml, ready |-> rd, rst |-> FALSE]
+\* latched modules: the inputs may change right after the strobe (one representative other value)
+OtherIn(rd) == [start |-> FALSE, sp |-> (req.sp + 1) % NWordsTotal(cfg), ml |-> 0, ready |-> rd, rst |-> FALSE]
+QuietInputs == {HeldIn(rd) : rd \in BOOLEAN}
+               \cup (IF cfg.latched /\ phase # "idle" THEN {OtherIn(rd) : rd \in BOOLEAN} ELSE {})
+StartInputs == {[start |-> TRUE, sp |-> r.sp, ml |-> r.ml, ready |-> rd, rst |-> FALSE] :
+                    r \in Requests, rd \in BOOLEAN}
 
 \* Ref: the canonical representatives of the allowed outputs (don't-care lanes = 0, flags low while idle)
 Quiet(d) == [valid |-> 0, lanes |-> [i \in 1..cfg.w |-> 0], first |-> FALSE, last |-> FALSE, done |-> d, olen |-> 0]
-Beat == [valid |-> Mask(WValid(cfg, req, k)),
+Beat == [valid |-> ExpMask(cfg, WValid(cfg, req, k)),
          lanes |-> [l \in 1..cfg.w |->
                        IF \E i \in 1..WValid(cfg, req, k) : LaneOf(cfg, req, k, i) = l
                        THEN cfg.data[WBase(cfg, req, k) + (CHOOSE i \in 1..WValid(cfg, req, k) : LaneOf(cfg, req, k, i) = l)]
@@ -64,9 +68,10 @@ AcceptFinal == phase = "streaming" /\ \E i \in QuietInputs, o \in AllowedOut :
 AwaitDone   == phase = "finishing" /\ \E i \in QuietInputs, o \in AllowedOut : ~o.done /\ Do(i, o)
 DonePulse   == phase = "finishing" /\ \E i \in QuietInputs, o \in AllowedOut : o.done /\ Do(i, o)
 ZeroCycle   == phase = "zero" /\ \E i \in QuietInputs, o \in AllowedOut : Do(i, o)
+ResetCycle  == phase # "idle" /\ \E rd \in BOOLEAN, o \in AllowedOut : Do([HeldIn(rd) EXCEPT !.rst = TRUE], o)
 
 Cycle == \/ IdleCycle \/ StartTx \/ StartZero \/ Bubble \/ StallCycle \/ AcceptWord \/ AcceptFinal
-         \/ AwaitDone \/ DonePulse \/ ZeroCycle
+         \/ AwaitDone \/ DonePulse \/ ZeroCycle \/ ResetCycle
 
 MCSpec == MCInit /\ [][Cycle]_vars
 
